@@ -109,7 +109,7 @@ impl Check for C13 {
                "stub": ["the storage device behind Read (SimReader)"]})
     }
     fn required_probes(&self, _tier: Tier) -> Vec<&'static str> {
-        vec!["cut_is_error", "fault.eintr", "fault.short_read", "zero_segments", "max_segments_255", "huge_zone_count"]
+        vec!["cut_is_error", "fault.eintr", "fault.short_read", "zero_segments", "max_segments_255", "huge_zone_count", "cut_between_segments"]
     }
 
     fn run(&self, p: &Params, tape: &mut Tape, ctx: &mut Ctx) {
@@ -199,6 +199,20 @@ impl Check for C13 {
                     let t = b as i64 + d;
                     if t >= 0 && (t as usize) < len {
                         cuts.push(t as usize);
+                    }
+                }
+            }
+            // cuts exactly between elevation segments (and one byte either side)
+            let ns = rf.segment_ends.len();
+            for _ in 0..picks.min(ns) {
+                let e = rf.segment_ends[tape.draw(ns as u64) as usize];
+                for d in [-1i64, 0, 1] {
+                    let t = e as i64 + d;
+                    if t >= 0 && (t as usize) < len {
+                        cuts.push(t as usize);
+                        if d == 0 {
+                            ctx.count("cut_between_segments");
+                        }
                     }
                 }
             }
